@@ -17,13 +17,14 @@ for c in p.classes.values():
 from sa.resolve import Resolver
 cg = Resolver(p).call_graph()
 sigs = {q: f.params + ['*'] + f.kwonly for q, f in p.functions.items()}
-from sa.normalise import function_refs, identifier_mentions
+from sa.normalise import function_refs, identifier_mentions, local_fingerprints
 mentions, vocab = identifier_mentions(p)
 refs = function_refs(p, {q.split('.')[-1] for q in p.functions})
 out = {'reference_commit': head, 'functions': sorted(p.functions), 'constants': sorted(set(consts)),
        'calls': {k: sorted(v) for k, v in sorted(cg.items()) if v}, 'signatures': sigs,
        'mentions': {k: sorted(v) for k, v in sorted(mentions.items())}, 'vocabulary': sorted(vocab),
        'attr_reads': {q: sorted({x.attr for x in __import__('ast').walk(f.node) if isinstance(x, __import__('ast').Attribute)}) for q, f in p.functions.items()},
+       'locals': {q: local_fingerprints(f.node) for q, f in sorted(p.functions.items()) if isinstance(f.node, __import__('ast').FunctionDef) and local_fingerprints(f.node)},
        'refs': {q: sorted(v) for q, v in sorted(refs.items()) if v},
        'kinds': {q: ('classmethod' if f.is_classmethod else 'staticmethod' if f.is_staticmethod else 'property' if f.is_property
                      else 'method' if f.cls is not None else 'function') for q, f in p.functions.items()}}
